@@ -27,6 +27,7 @@ import (
 	"sync/atomic"
 
 	g "github.com/zenon-network/go-zenon/chain/genesis/mock"
+	"github.com/zenon-network/go-zenon/chain"
 	"github.com/zenon-network/go-zenon/chain/nom"
 	"github.com/zenon-network/go-zenon/common/db"
 	"github.com/zenon-network/go-zenon/common/types"
@@ -49,7 +50,8 @@ func init() {
 		DeathIsViolation: true,
 		DeathSig:         func(caseID, tail string) string { return "node-crash " + topRepoFrame(tail) },
 		Assumptions: []string{
-			"contract accounts are not modelled block by block (their receives are generated by the real pillar); they are checked structurally",
+			"on real nodes contract accounts are checked structurally; the pool component is additionally driven directly (api:* cases) with synthetic single blocks and contract batches",
+			"api:* cases compete only with single-block candidates at transaction boundaries and never for an account's very first block (a batch as competitor and height-1 replacement are refused by the implementation: unreachable for contracts on a node, not exercised)",
 			"the producer-vs-sync interleaving is not forced by a hook: both orders are observed over many repetitions and counted",
 		},
 	})
@@ -57,10 +59,15 @@ func init() {
 
 func c14Cases(tier string, seed int64) []string {
 	nm, nc, nr, np := 8, 2, 4, 4
+	na := 60
 	if tier == "thorough" {
 		nm, nc, nr, np = 1200, 120, 160, 200
+		na = 6000
 	}
 	var l []string
+	for i := 0; i < na; i++ {
+		l = append(l, fmt.Sprintf("api:%d", i))
+	}
 	for i := 0; i < nm; i++ {
 		l = append(l, fmt.Sprintf("model:%d", i))
 	}
@@ -81,6 +88,8 @@ func c14Run(c *fw.C, caseID string) {
 	switch {
 	case scan1(caseID, "model:%d", &idx):
 		c14Model(c, caseID)
+	case scan1(caseID, "api:%d", &idx):
+		c14Api(c, caseID)
 	case scan1(caseID, "content:%d", &idx):
 		c14Content(c, caseID)
 	case scan1(caseID, "race:readers:%d", &idx):
@@ -556,9 +565,52 @@ func c14Content(c *fw.C, caseID string) {
 	w.ContractWeight = 70
 	// the content must be checked at the moment the pillar asks for it: inside production (after the contract
 	// receives of the previous round were generated) and between user bursts
+	// right after a momentum was inserted (before the pillar regenerates anything) the pool must still hold every
+	// block that was pooled before and was not confirmed by the momentum
+	var before []*nom.AccountBlock
 	N.OnMomentum = func(m *nom.Momentum, err error) {
-		if err == nil && len(m.Content) > 100 {
+		if err != nil {
+			return
+		}
+		if len(m.Content) > 100 {
 			c.Violation("momentum-content-exceeds-limit", map[string]interface{}{"where": "accepted momentum", "entries": len(m.Content)})
+		}
+		confirmed := map[types.Hash]bool{}
+		for _, hd := range m.Content {
+			confirmed[hd.Hash] = true
+		}
+		after := map[types.Hash]bool{}
+		for _, b := range N.Chain.GetAllUncommittedAccountBlocks() {
+			after[b.Hash] = true
+		}
+		c.Eval(1)
+		left, lost := 0, 0
+		var lostExample *nom.AccountBlock
+		for _, b := range before {
+			if confirmed[b.Hash] {
+				continue
+			}
+			left++
+			if !after[b.Hash] {
+				lost++
+				if lostExample == nil {
+					lostExample = b
+				}
+			}
+		}
+		if left > 0 {
+			c.Distinct(fmt.Sprintf("leftover-after-momentum/%d", min3(left/20, 5)))
+		}
+		if lost > 0 {
+			kind := "user-block"
+			if types.IsEmbeddedAddress(lostExample.Address) {
+				kind = "contract-block"
+				if len(lostExample.DescendantBlocks) > 0 || lostExample.BlockType == nom.BlockTypeContractSend {
+					kind = "contract-batch"
+				}
+			}
+			c.Violation("unconfirmed-pooled-block-dropped-by-momentum-insert "+kind, map[string]interface{}{"pooled_before": len(before), "confirmed": len(m.Content), "left_unconfirmed": left, "lost": lost,
+				"example": fmt.Sprintf("%s height %d type %d descendants %d", lostExample.Address, lostExample.Height, lostExample.BlockType, len(lostExample.DescendantBlocks))})
 		}
 	}
 	for round := 0; round < 8; round++ {
@@ -569,6 +621,7 @@ func c14Content(c *fw.C, caseID string) {
 		if !c14CheckContent(c, N, "after user burst") {
 			return
 		}
+		before = N.Chain.GetAllUncommittedAccountBlocks()
 		if _, err := N.Produce(0); err != nil {
 			c.Violation("producer-cannot-produce", map[string]interface{}{"err": err.Error(), "log": w.Log})
 			return
@@ -807,4 +860,228 @@ func c14ProducerVsSync(c *fw.C, caseID string) {
 	c.Distinct(fmt.Sprintf("producer-vs-sync/own>0=%v/synced>0=%v", own > 0, synced > 0))
 	_ = both
 	_ = sort.Strings
+}
+
+// ---- (e) the pool component driven directly with synthetic transactions, including contract batches ------
+
+type c14FakeStable struct {
+	dbs map[types.Address]db.DB
+}
+
+func (s *c14FakeStable) GetStableAccountDB(a types.Address) db.DB {
+	d, ok := s.dbs[a]
+	if !ok {
+		d = db.NewMemDB()
+		s.dbs[a] = d
+	}
+	return d.Snapshot()
+}
+
+type c14Tx struct {
+	blocks []*nom.AccountBlock // descendants first, the main block last (as stored)
+	patch  []byte
+}
+
+func (t *c14Tx) main() *nom.AccountBlock { return t.blocks[len(t.blocks)-1] }
+func (t *c14Tx) firstHeight() uint64    { return t.blocks[0].Height }
+func (t *c14Tx) prev() types.Hash       { return t.blocks[0].PreviousHash }
+
+func c14Api(c *fw.C, caseID string) {
+	r := c.Rand(caseID)
+	stable := &c14FakeStable{dbs: map[types.Address]db.DB{}}
+	pool := chain.NewAccountPool(stable)
+	listener := pool.(chain.MomentumEventListener)
+	lock := &sync.Mutex{}
+	addrs := []types.Address{g.User1.Address, g.User2.Address, types.TokenContract, types.PlasmaContract, types.PillarContract}
+	model := map[types.Address][]*c14Tx{} // pooled transactions per address
+	stableHead := map[types.Address]types.HashHeight{}
+	var trace []string
+	log := func(f string, a ...interface{}) {
+		trace = append(trace, fmt.Sprintf(f, a...))
+		if len(trace) > 40 {
+			trace = trace[1:]
+		}
+	}
+	counter := uint64(0)
+	newHash := func() types.Hash {
+		counter++
+		return types.NewHash([]byte(fmt.Sprintf("%s-%d-%d", caseID, counter, r.Int63())))
+	}
+	head := func(a types.Address) types.HashHeight {
+		if l := model[a]; len(l) > 0 {
+			return l[len(l)-1].main().Identifier()
+		}
+		return stableHead[a]
+	}
+	// makeTx builds a transaction of nDesc descendants + main block on top of (prevHash, prevHeight)
+	makeTx := func(a types.Address, prev types.HashHeight, nDesc int, base, total uint64) *c14Tx {
+		t := &c14Tx{}
+		ph, hh := prev.Hash, prev.Height
+		contract := types.IsEmbeddedAddress(a)
+		for i := 0; i < nDesc; i++ {
+			d := &nom.AccountBlock{Version: 1, ChainIdentifier: 100, BlockType: nom.BlockTypeContractSend, Address: a, Height: hh + 1, PreviousHash: ph, Hash: newHash(), Amount: big.NewInt(int64(i))}
+			t.blocks = append(t.blocks, d)
+			ph, hh = d.Hash, d.Height
+		}
+		bt := uint64(nom.BlockTypeUserSend)
+		if contract {
+			bt = nom.BlockTypeContractReceive
+		}
+		m := &nom.AccountBlock{Version: 1, ChainIdentifier: 100, BlockType: bt, Address: a, Height: hh + 1, PreviousHash: ph, Hash: newHash(), BasePlasma: base, TotalPlasma: total, Amount: big.NewInt(0)}
+		m.DescendantBlocks = append([]*nom.AccountBlock{}, t.blocks...)
+		t.blocks = append(t.blocks, m)
+		p := db.NewPatch()
+		p.Put([]byte{4, byte(counter)}, m.Hash.Bytes()) // some storage write
+		t.patch = p.Dump()
+		return t
+	}
+	submit := func(t *c14Tx, force bool) error {
+		p, _ := db.NewPatchFromDump(append([]byte{}, t.patch...))
+		tx := &nom.AccountBlockTransaction{Block: t.main(), Changes: p}
+		if force {
+			return pool.ForceAddAccountBlockTransaction(lock, tx)
+		}
+		return pool.AddAccountBlockTransaction(lock, tx)
+	}
+	compare := func(op string) bool {
+		for _, a := range addrs {
+			got := pool.GetUncommittedAccountBlocksByAddress(a)
+			var want []*nom.AccountBlock
+			for _, t := range model[a] {
+				want = append(want, t.blocks...)
+			}
+			c.Eval(1)
+			bad := len(got) != len(want)
+			for i := 0; !bad && i < len(got); i++ {
+				bad = got[i].Hash != want[i].Hash || got[i].Height != want[i].Height
+			}
+			fid := pool.GetFrontierAccountStore(a).Identifier()
+			if bad || fid != head(a) {
+				kind := "user"
+				if types.IsEmbeddedAddress(a) {
+					kind = "contract"
+				}
+				c.Violation("pool-component-differs-from-model after "+op+" "+kind, map[string]interface{}{"address": a.String(), "pool_blocks": len(got), "model_blocks": len(want),
+					"pool_frontier_height": fid.Height, "model_frontier_height": head(a).Height, "trace_tail": trace})
+				return false
+			}
+		}
+		return true
+	}
+	nOps := 120
+	for op := 0; op < nOps; op++ {
+		a := addrs[r.Intn(len(addrs))]
+		contract := types.IsEmbeddedAddress(a)
+		l := model[a]
+		switch k := r.Intn(100); {
+		case k < 45: // fast-forward: single block or (contract) a batch
+			nDesc := 0
+			if contract && r.Intn(2) == 0 {
+				nDesc = 1 + r.Intn(3)
+			}
+			t := makeTx(a, head(a), nDesc, 21000, 21000*uint64(1+r.Intn(2)))
+			err := submit(t, false)
+			log("ff %s desc=%d h=%d -> %v", a.String()[:12], nDesc, t.main().Height, err)
+			c.Distinct(fmt.Sprintf("api/fast-forward/desc=%d", min3(nDesc, 2)))
+			if err != nil {
+				c.Violation("pool-component-refuses-fast-forward", map[string]interface{}{"err": err.Error(), "descendants": nDesc, "trace_tail": trace})
+				return
+			}
+			model[a] = append(l, t)
+		case k < 75 && len(l) > 0: // a single-block competitor at the first height of pooled transaction i (a transaction boundary)
+			i := r.Intn(len(l))
+			target := l[i]
+			if target.firstHeight() == 1 {
+				continue // the account's very first block: not exercised (see assumptions)
+			}
+			prev := stableHead[a]
+			if i > 0 {
+				prev = l[i-1].main().Identifier()
+			}
+			incumbent := target.blocks[0] // the block that currently sits at that height
+			force := r.Intn(4) == 0
+			base, total := uint64(21000), uint64(21000*uint64(1+r.Intn(3)))
+			if incumbent.BasePlasma == 0 && r.Intn(2) == 0 {
+				base, total = 0, 0 // equal (0/0) ratio: hash decides
+			}
+			t := makeTx(a, prev, 0, base, total)
+			win, why := c14Higher(c14MBlock{hash: t.main().Hash, base: base, total: total}, c14MBlock{hash: incumbent.Hash, base: incumbent.BasePlasma, total: incumbent.TotalPlasma})
+			above := len(l) - i - 1
+			batchAbove := false
+			for _, x := range l[i:] {
+				if len(x.blocks) > 1 {
+					batchAbove = true
+				}
+			}
+			err := submit(t, force)
+			log("compete %s at tx %d/%d force=%v %s batchAbove=%v -> %v", a.String()[:12], i, len(l), force, why, batchAbove, err)
+			c.Distinct(fmt.Sprintf("api/compete/%s/force=%v/batch-at-or-above=%v/txs-above=%d", why, force, batchAbove, min3(above, 2)))
+			expectOK := win || force
+			if (err == nil) != expectOK {
+				c.Violation(fmt.Sprintf("pool-component-competitor-outcome-differs-from-rule %s force=%v batch-at-or-above=%v", why, force, batchAbove), map[string]interface{}{"err": fmt.Sprint(err), "trace_tail": trace})
+				return
+			}
+			if expectOK {
+				model[a] = append(append([]*c14Tx{}, l[:i]...), t)
+			}
+		case k < 82 && len(l) > 0: // duplicate of a pooled transaction
+			t := l[r.Intn(len(l))]
+			if len(t.blocks) > 1 {
+				continue
+			}
+			err := submit(t, false)
+			log("dup -> %v", err)
+			c.Distinct("api/duplicate")
+			if err != nil {
+				c.Violation("pool-component-duplicate-not-idempotent", map[string]interface{}{"err": err.Error(), "trace_tail": trace})
+				return
+			}
+		case k < 93: // a momentum confirms, for some addresses, a prefix of the pooled transactions
+			var content []*nom.AccountBlock
+			for _, x := range addrs {
+				lx := model[x]
+				if len(lx) == 0 || r.Intn(2) == 0 {
+					continue
+				}
+				n := 1 + r.Intn(len(lx))
+				sdb := stable.dbs[x]
+				if sdb == nil {
+					sdb = db.NewMemDB()
+					stable.dbs[x] = sdb
+				}
+				for _, t := range lx[:n] {
+					// apply what the pool holds for the transaction (its change set incl. the pool's bookkeeping) to the stable state
+					p := pool.GetPatch(x, t.main().Identifier())
+					if p == nil {
+						c.Violation("pool-component-has-no-patch-for-pooled-block", map[string]interface{}{"trace_tail": trace})
+						return
+					}
+					cp, _ := db.NewPatchFromDump(append([]byte{}, p.Dump()...))
+					_ = sdb.Apply(cp)
+					content = append(content, t.blocks...)
+					stableHead[x] = t.main().Identifier()
+				}
+				model[x] = append([]*c14Tx{}, lx[n:]...)
+			}
+			listener.InsertMomentum(&nom.DetailedMomentum{Momentum: &nom.Momentum{Height: uint64(op + 2), Content: nom.NewMomentumContent(content)}, AccountBlocks: content})
+			log("momentum confirming %d blocks", len(content))
+			leftoverBatch := false
+			for _, x := range addrs {
+				for _, t := range model[x] {
+					if len(t.blocks) > 1 {
+						leftoverBatch = true
+					}
+				}
+			}
+			c.Distinct(fmt.Sprintf("api/momentum/leftover-batch=%v", leftoverBatch))
+		default: // rollback: everything pooled is dropped
+			listener.DeleteMomentum(nil)
+			model = map[types.Address][]*c14Tx{}
+			log("delete-momentum")
+			c.Distinct("api/delete-momentum")
+		}
+		if !compare("op") {
+			return
+		}
+	}
 }
